@@ -274,6 +274,8 @@ type Opt struct {
 	// AllowUnchecked: results that are never branched on are not a violation
 	// (used when the call is matched only as a K2 waypoint).
 	Waypoint bool
+	// IgnoreBool: the callee's boolean result is data (e.g. "is confirmed"), not a verdict.
+	IgnoreBool bool
 }
 
 func (c *Ctx) unlessEdges(fn *ssa.Function, fnName string, conds []Cond) EdgeSet {
@@ -387,7 +389,7 @@ func (c *Ctx) Gate(fn *ssa.Function, spec string, tgt Target, opt Opt) {
 			continue
 		}
 		// sufficiency: a (bool, error) callee that can answer (false, nil) must have its boolean looked at
-		if len(r.Bool) > 0 && len(r.Err) > 0 {
+		if len(r.Bool) > 0 && len(r.Err) > 0 && !opt.IgnoreBool {
 			boolUsed := false
 			for _, t := range tests {
 				if condUses(t.If.Cond, r, 'b', 0) {
